@@ -280,6 +280,23 @@ Fixpoint rl_run (configured : option (list Z)) (fuel : nat) (st : rl_state) (l :
            end
   end.
 
+(* mode 7: the same with store proof-of-work switched on (difficulty d).  Kind 0: STORE with a valid nonce; 2: STORE with a
+   wrong nonce; 3: STORE without nonce.  handle_store asks the limiter BEFORE it looks at the proof of work, so all three
+   take a slot; a request the limiter lets through is then answered OK (1) or with a proof-of-work error (2).  The
+   proof-of-work failure bookkeeping (note / clear_store_pow_failures) only picks the error code: it never touches the
+   limiter's histories. *)
+Fixpoint rl_run7 (d : Z) (configured : option (list Z)) (fuel : nat) (st : rl_state) (l : list Z) : list Z :=
+  match fuel with
+  | O => []
+  | S f => match l with
+           | dt :: kind :: remote :: r =>
+               let '(tok, r) := r_opt r in
+               let '(st', ok) := rl_step configured st dt (if kind =? 1 then 1 else 0) remote tok in
+               (if ok then (if (kind =? 0) || (kind =? 1) || (d =? 0) then 1 else 2) else 0) :: rl_run7 d configured f st' r
+           | _ => []
+           end
+  end.
+
 Definition run (input : list Z) : list Z :=
   let '(mode, l) := w_next input in
   if mode =? 1 then        (* C29: what the client makes of what the daemon sends *)
@@ -298,6 +315,10 @@ Definition run (input : list Z) : list Z :=
   else if mode =? 4 then   (* C28 *)
     let '(configured, l) := r_opt l in
     rl_run configured (length l) {| rl_now := 1000; rl_store := []; rl_fetch := [] |} l
+  else if mode =? 7 then   (* C28: the limiter with store proof-of-work on *)
+    let '(d, l) := w_next l in let '(_, l) := w_next l in let '(_, l) := w_next l in
+    let '(configured, l) := r_opt l in
+    rl_run7 d configured (length l) {| rl_now := 1000; rl_store := []; rl_fetch := [] |} l
   else if mode =? 6 then   (* C28: admission of one STORE *)
     let '(d, l) := w_next l in let '(mn, l) := w_next l in let '(mx, l) := w_next l in
     let '(df, l) := w_next l in let '(cap, l) := w_next l in
